@@ -19,7 +19,7 @@ FUNCTIONS = [("pandapower.control.controller.DERController.der_control", "DERCon
 STUBS = ["np.clip/sign/sqrt/minimum/maximum/interp: NaN-faithful shims (validated against numpy on every run)",
          "controller objects are built with object.__new__ and exactly the attributes the methods read"]
 ASSUMPTIONS = ["interval claims are stated with tolerance 1e-9 (float artefacts in the area constants)", "0 <= p <= 1.5, -1.5 <= q <= 1.5, 0.5 <= vm <= 1.5 (per unit), sn_mva in [0.1,10], saturate_sn_mva in [0.05,10]; one DER per call"]
-OUTSIDE = ["PQAreaPOLYGON / QVAreaPOLYGON and everything derived from them (4110, 4105): shapely, compiled", "QModel curves",
+OUTSIDE = ["shapely's own geometry code (replaced by a contract stub for simple polygons with concrete vertices; validated against shapely at the sample points of every run)", "operating points outside 0.06 < p < 1, 0.9 < vm < 1.1 for the polygon areas (the polygons' own p / vm range)", "QModel curves",
            "QVArea4130(variant=2) reads undefined attributes (cannot be constructed) - reported in DESIGN.md, not part of this property"]
 BOUNDS = {"quick": "saturation step q_prio {T,F}; area saturation for STATCOM, PQVArea4120V1-3, PQVArea4130V1/V3; in_area => within flexibility for PQArea4120/4130",
           "thorough": "same + two DERs per call + raise_merge_overlap False"}
@@ -107,6 +107,106 @@ def make_area(aname):
     return fn
 
 
+# ---------------------------------------------------------------- polygon areas: shapely (compiled) replaced by its geometric contract
+class _SPoint:
+    def __init__(self, x, y):
+        self.x, self.y = x, y
+
+
+class _Coords(list):
+    pass
+
+
+class _SLine:
+    """the only LineString the areas build: the vertical segment from (x, -1) to (x, 1)"""
+    def __init__(self, pts):
+        (x0, y0), (x1, y1) = pts
+        self.x, self.lo, self.hi = x0, y0, y1
+
+    def _crossings(self, poly):
+        ys = []
+        v = poly.verts
+        for (xa, ya), (xb, yb) in zip(v[:-1], v[1:]):
+            if xa == xb:
+                if bool(self.x == xa):
+                    ys += [ya, yb]
+                continue
+            lo, hi = (xa, xb) if xa < xb else (xb, xa)
+            if bool(self.x >= lo) and bool(self.x <= hi):
+                ys.append(ya + (yb - ya) * (self.x - xa) / (xb - xa))
+        return ys
+
+    def intersects(self, poly):
+        return len(self._crossings(poly)) > 0
+
+    def intersection(self, poly):
+        ys = self._crossings(poly)
+        lo = hi = ys[0]
+        for y in ys[1:]:
+            if bool(y < lo):
+                lo = y
+            if bool(y > hi):
+                hi = y
+        out = _SLine.__new__(_SLine)
+        out.coords = _Coords([(self.x, lo)] if bool(lo == hi) else [(self.x, lo), (self.x, hi)])
+        return out
+
+
+class _SPolygon:
+    """simple polygon with concrete vertices; contains(point) = interior by the even-odd rule (a point on the boundary is a null set of the
+    symbolic inputs and irrelevant for the claims: clipping a value that lies on the boundary does not move it)"""
+    def __init__(self, verts):
+        self.verts = [(float(a), float(b)) for a, b in verts]
+        if self.verts[0] != self.verts[-1]:
+            self.verts.append(self.verts[0])
+
+    def contains(self, pt):
+        inside = False
+        v = self.verts
+        for (xa, ya), (xb, yb) in zip(v[:-1], v[1:]):
+            if ya == yb:
+                continue
+            if bool(pt.y > ya) != bool(pt.y > yb):
+                xc = xa + (xb - xa) * (pt.y - ya) / (yb - ya)
+                if bool(pt.x < xc):
+                    inside = not inside
+        return inside
+
+
+def _shapely_stubs(ctx):
+    return dict(Polygon=_SPolygon, Point=_SPoint, LineString=_SLine) if ctx.symbolic else {}
+
+
+POLY_AREAS = {
+    "4110": lambda pa: pa.PQVArea4110(), "4105V1": lambda pa: pa.PQVArea4105(1), "4105V2": lambda pa: pa.PQVArea4105(2),
+    "POLYGON": lambda pa: pa.PQVAreaPOLYGON(p_points_pu=(0.1, 0.2, 1, 1, 0.2, 0.1, 0.1), q_pq_points_pu=(0.1, 0.410775, 0.410775, -0.328684, -0.328684, -0.1, 0.1),
+                                            q_qv_points_pu=(0.1, 0.410775, 0.410775, -0.328684, -0.328684, -0.1, 0.1), vm_points_pu=(0.9, 1.05, 1.1, 1.1, 1.05, 0.9, 0.9)),
+}
+
+
+def make_poly_area(aname):
+    def fn(ctx):
+        from .common import patched
+        dc = ctx.load("pandapower.control.controller.DERController.der_control")
+        pa = ctx.load("pandapower.control.controller.DERController.PQVAreas")
+        with patched(pa, **_shapely_stubs(ctx)):
+            area = POLY_AREAS[aname](pa)
+            c = _ctrl(ctx, dc, area, False, False)
+            p = _series(ctx, [ctx.var("p", 0.06, 0.999)])
+            q = _series(ctx, [ctx.var("q", -1., 1.)])
+            vm = _series(ctx, [ctx.var("vm", 0.901, 1.099)])
+            # the abscissas of the polygon vertices are a null set on which 'touches' and 'contains' differ by convention: stay 1e-6 away
+            for val, xs in ((p.values[0], area.pq_area.p_points_pu), (vm.values[0], area.qv_area.vm_points_pu)):
+                for xv in sorted(set(float(x) for x in xs)):
+                    ctx.assume((val >= xv + 1e-6) | (val <= xv - 1e-6))
+            p2, q2 = c._saturate(p.copy(), q.copy(), vm)
+            fl = area.q_flexibility(p_pu=p2, vm_pu=vm)
+        ctx.le("q_not_below_area_minimum", fl[0, 0], q2.values[0] + 1e-6)
+        ctx.le("q_not_above_area_maximum", q2.values[0], fl[0, 1] + 1e-6)
+        ctx.eq("p_untouched_by_area_saturation", p2.values[0], p.values[0])
+    return fn
+
+
 PQ = {"PQArea4120_2018": lambda pa: pa.PQArea4120(-0.328684, 0.410775), "PQArea4120_2015": lambda pa: pa.PQArea4120(-0.328684, 0.410775, version=2015),
       "PQArea4130": lambda pa: pa.PQArea4130(-0.328684, 0.410775), "PQArea4120_sym_limits": None}
 
@@ -141,6 +241,9 @@ def instances(tier):
     if tier == "thorough":
         out.append(Inst("area_4120V2_two_ders", make_area_two("4120V2", narrow_second=True), nvars=16, samples=2, raises=(ValueError,), max_paths=20000, timeout_ms=30000,
                         meta=dict(kernel="_saturate+area", area="4120V2", n=2, second_der="p in [0.3,0.5], vm in [1.0,1.02]")))
+    for a in POLY_AREAS:
+        out.append(Inst(f"polygon_area_{a}", make_poly_area(a), nvars=12, samples=4, raises=(ValueError,), max_paths=5000,
+                        meta=dict(kernel="_saturate+polygon area", area=a)))
     for a in PQ:
         out.append(Inst(f"in_area_{a}", make_in_area(a), nvars=12, samples=3, meta=dict(kernel="in_area vs q_flexibility", area=a)))
     return out
